@@ -66,7 +66,7 @@ def summarize(results):
 
 
 def tv_check(pid, tier, templates, sylt, t0, oracle_name="equiv", oracles=None, replays=None, assumptions=(), extra_cov=None,
-             expect_accept=True, sig_of=None):
+             expect_accept=True, sig_of=None, rejected_is_violation=False):
     """runs templates, maps outcomes to findings, writes evidence, returns exit code"""
     results = run_templates(sylt, templates, tier, oracle_name, oracles, replays)
     fnd = common.Findings(pid)
@@ -81,6 +81,9 @@ def tv_check(pid, tier, templates, sylt, t0, oracle_name="equiv", oracles=None, 
             fnd.undecided("template %s: %s %s" % (name, st, (r.get("why") or "")[:300]))
         elif st == "undecided":
             fnd.undecided("template %s: solver returned unknown on %d queries" % (name, r.get("undecided", 0)))
+        elif st == "rejected" and rejected_is_violation:
+            fnd.report("rejected:" + role, "template %s (a documented use) is rejected by the compiler: %s" % (name, r.get("compiler_output", "")[:400]), {"main.sy": r.get("source", "")},
+                       cmd="sylt -o out.lua main.sy   # must be accepted")
         elif st == "rejected" and expect_accept and not name.startswith("rand_"):
             fnd.undecided("template %s: rejected by the compiler (template is meant to be well typed): %s" % (name, r.get("compiler_output", "")[:300]))
         elif st == "load_error":
